@@ -270,3 +270,29 @@ pub fn is_xref_stream_obj(o: &MObj) -> bool {
 pub fn is_objstm_obj(o: &MObj) -> bool {
     matches!(o, MObj::Stream(d, _) if dict_get(d, b"Type") == Some(&MObj::Name(b"ObjStm".to_vec())))
 }
+
+/// Canonical form: dictionary keys sorted (key order is not part of any
+/// property; lopdf's `Dictionary::remove` reorders keys).
+pub fn canon(o: &MObj) -> MObj {
+    let cd = |d: &MDict| -> MDict {
+        let mut v: MDict = d.iter().map(|(k, x)| (k.clone(), canon(x))).collect();
+        v.sort_by(|a, b| a.0.cmp(&b.0));
+        v
+    };
+    match o {
+        MObj::Array(a) => MObj::Array(a.iter().map(canon).collect()),
+        MObj::Dict(d) => MObj::Dict(cd(d)),
+        MObj::Stream(d, b) => MObj::Stream(cd(d), b.clone()),
+        other => other.clone(),
+    }
+}
+
+pub fn canon_doc(mut d: MDoc) -> MDoc {
+    for (_, o) in d.objects.iter_mut() {
+        *o = canon(o);
+    }
+    if let MObj::Dict(t) = canon(&MObj::Dict(std::mem::take(&mut d.trailer))) {
+        d.trailer = t;
+    }
+    d
+}
